@@ -72,6 +72,13 @@ impl EntityId {
 @@extract const src/structure/guid.rs EntityId::MAX
 }
 
+impl GUID {
+    // re-declared with its real value (built from the two exec consts above)
+    pub exec const GUID_UNKNOWN: GUID ensures prefix_is_unknown(GUID::GUID_UNKNOWN.prefix) {
+        GUID { prefix: GuidPrefix::UNKNOWN, entity_id: EntityId::UNKNOWN }
+    }
+}
+
 // The three bootstrap topics DDS Security 8.4.2.4 (table 27) exempts from RTPS protection:
 // DCPSParticipants (SPDP), DCPSParticipantStatelessMessage (authentication handshake),
 // DCPSParticipantVolatileMessageSecure (key exchange).
@@ -114,15 +121,7 @@ impl Default for ParameterList { #[verifier::external_body] fn default() -> Para
 #[verifier::external_body] pub struct SequenceNumber { p: u8 }
 #[verifier::external_body] pub struct FragmentNumber { p: u8 }
 #[verifier::external_body] pub struct SequenceNumberSet { p: u8 }
-#[verifier::external_body] pub struct Count { p: u8 }
-#[verifier::external_body] pub struct Gap { p: u8 }
-#[verifier::external_body] pub struct Heartbeat { p: u8 }
-#[verifier::external_body] pub struct HeartbeatFrag { p: u8 }
-#[verifier::external_body] pub struct NackFrag { p: u8 }
-#[verifier::external_body] pub struct InfoSource { p: u8 }
-#[verifier::external_body] pub struct InfoDestination { p: u8 }
-#[verifier::external_body] pub struct InfoReply { p: u8 }
-#[verifier::external_body] pub struct InfoTimestamp { p: u8 }
+#[verifier::external_body] pub struct FragmentNumberSet { p: u8 }
 #[verifier::external_body] pub struct SecureBody { p: u8 }
 #[verifier::external_body] pub struct SecurePrefix { p: u8 }
 #[verifier::external_body] pub struct SecurePostfix { p: u8 }
@@ -169,7 +168,18 @@ impl<T, N> BitFlags<T, N> { #[verifier::external_body] pub fn contains(&self, t:
 // ---- real message structure -----------------------------------------------------------------
 @@extract struct src/messages/submessages/data.rs Data
 @@extract struct src/messages/submessages/data_frag.rs DataFrag
+#[verifier::external_body] pub struct Locator { p: u8 }
+impl Clone for Locator { #[verifier::external_body] fn clone(&self) -> (r: Locator) ensures r == *self { unimplemented!() } }
+#[verifier::external_body] #[derive(Clone, Copy)] pub struct Timestamp { p: u8 }
+@@extract struct src/messages/submessages/info_timestamp.rs InfoTimestamp
+@@extract struct src/messages/submessages/info_source.rs InfoSource
+@@extract struct src/messages/submessages/info_reply.rs InfoReply
+@@extract struct src/messages/submessages/info_destination.rs InfoDestination
 @@extract struct src/messages/submessages/ack_nack.rs AckNack
+@@extract struct src/messages/submessages/nack_frag.rs NackFrag
+@@extract struct src/messages/submessages/gap.rs Gap
+@@extract struct src/messages/submessages/heartbeat.rs Heartbeat
+@@extract struct src/messages/submessages/heartbeat_frag.rs HeartbeatFrag
 impl Clone for Data { #[verifier::external_body] fn clone(&self) -> (r: Data) ensures r == *self { unimplemented!() } }
 impl Clone for DataFrag { #[verifier::external_body] fn clone(&self) -> (r: DataFrag) ensures r == *self { unimplemented!() } }
 
@@ -184,40 +194,131 @@ impl Clone for DataFrag { #[verifier::external_body] fn clone(&self) -> (r: Data
 impl Clone for WriterSubmessage { #[verifier::external_body] fn clone(&self) -> (r: WriterSubmessage) ensures r == *self { unimplemented!() } }
 impl Clone for Submessage { #[verifier::external_body] fn clone(&self) -> (r: Submessage) ensures r == *self { unimplemented!() } }
 
-// HasEntityIds (trait methods made inherent; the ids are the ones the real impls return)
+// HasEntityIds: real trait-impl bodies, extracted as inherent methods (R4)
+impl Data {
+@@extract fn src/messages/submessages/data.rs "HasEntityIds for Data::receiver_entity_id"
+@@ret r
+@@ensures gate.ids.receiver
+    r == self.reader_id
+@@end
+@@extract fn src/messages/submessages/data.rs "HasEntityIds for Data::sender_entity_id"
+@@ret r
+@@ensures gate.ids.sender
+    r == self.writer_id
+@@end
+}
+impl DataFrag {
+@@extract fn src/messages/submessages/data_frag.rs "HasEntityIds for DataFrag::receiver_entity_id"
+@@ret r
+@@ensures gate.ids.receiver
+    r == self.reader_id
+@@end
+@@extract fn src/messages/submessages/data_frag.rs "HasEntityIds for DataFrag::sender_entity_id"
+@@ret r
+@@ensures gate.ids.sender
+    r == self.writer_id
+@@end
+}
+impl Gap {
+@@extract fn src/messages/submessages/gap.rs "HasEntityIds for Gap::receiver_entity_id"
+@@ret r
+@@ensures gate.ids.receiver
+    r == self.reader_id
+@@end
+@@extract fn src/messages/submessages/gap.rs "HasEntityIds for Gap::sender_entity_id"
+@@ret r
+@@ensures gate.ids.sender
+    r == self.writer_id
+@@end
+}
+impl Heartbeat {
+@@extract fn src/messages/submessages/heartbeat.rs "HasEntityIds for Heartbeat::receiver_entity_id"
+@@ret r
+@@ensures gate.ids.receiver
+    r == self.reader_id
+@@end
+@@extract fn src/messages/submessages/heartbeat.rs "HasEntityIds for Heartbeat::sender_entity_id"
+@@ret r
+@@ensures gate.ids.sender
+    r == self.writer_id
+@@end
+}
+impl HeartbeatFrag {
+@@extract fn src/messages/submessages/heartbeat_frag.rs "HasEntityIds for HeartbeatFrag::receiver_entity_id"
+@@ret r
+@@ensures gate.ids.receiver
+    r == self.reader_id
+@@end
+@@extract fn src/messages/submessages/heartbeat_frag.rs "HasEntityIds for HeartbeatFrag::sender_entity_id"
+@@ret r
+@@ensures gate.ids.sender
+    r == self.writer_id
+@@end
+}
+impl AckNack {
+@@extract fn src/messages/submessages/ack_nack.rs "HasEntityIds for AckNack::receiver_entity_id"
+@@ret r
+@@ensures gate.ids.receiver
+    r == self.writer_id
+@@end
+@@extract fn src/messages/submessages/ack_nack.rs "HasEntityIds for AckNack::sender_entity_id"
+@@ret r
+@@ensures gate.ids.sender
+    r == self.reader_id
+@@end
+}
+impl NackFrag {
+@@extract fn src/messages/submessages/nack_frag.rs "HasEntityIds for NackFrag::receiver_entity_id"
+@@ret r
+@@ensures gate.ids.receiver
+    r == self.writer_id
+@@end
+@@extract fn src/messages/submessages/nack_frag.rs "HasEntityIds for NackFrag::sender_entity_id"
+@@ret r
+@@ensures gate.ids.sender
+    r == self.reader_id
+@@end
+}
 impl WriterSubmessage {
+    // the reader the submessage is addressed to / the writer it comes from
     pub open spec fn receiver_id(&self) -> EntityId {
         match self {
             WriterSubmessage::Data(s, _) => s.reader_id,
             WriterSubmessage::DataFrag(s, _) => s.reader_id,
-            WriterSubmessage::Gap(s, _) => gap_reader_id(s),
-            WriterSubmessage::Heartbeat(s, _) => heartbeat_reader_id(s),
-            WriterSubmessage::HeartbeatFrag(s, _) => heartbeatfrag_reader_id(s),
+            WriterSubmessage::Gap(s, _) => s.reader_id,
+            WriterSubmessage::Heartbeat(s, _) => s.reader_id,
+            WriterSubmessage::HeartbeatFrag(s, _) => s.reader_id,
         }
     }
-    #[verifier::external_body] pub fn receiver_entity_id(&self) -> (r: EntityId) ensures r == self.receiver_id() { unimplemented!() }
-    #[verifier::external_body] pub fn sender_entity_id(&self) -> EntityId { unimplemented!() }
+@@extract fn src/messages/submessages/submessage.rs "HasEntityIds for WriterSubmessage::receiver_entity_id"
+@@ret r
+@@ensures gate.ids.receiver
+    r == self.receiver_id()
+@@end
+@@extract fn src/messages/submessages/submessage.rs "HasEntityIds for WriterSubmessage::sender_entity_id"
+@@end
 }
-pub uninterp spec fn gap_reader_id(s: &Gap) -> EntityId;
-pub uninterp spec fn heartbeat_reader_id(s: &Heartbeat) -> EntityId;
-pub uninterp spec fn heartbeatfrag_reader_id(s: &HeartbeatFrag) -> EntityId;
-pub uninterp spec fn nackfrag_writer_id(s: &NackFrag) -> EntityId;
 impl ReaderSubmessage {
     // the writer the ACKNACK / NACKFRAG is addressed to
     pub open spec fn receiver_id(&self) -> EntityId {
         match self {
             ReaderSubmessage::AckNack(s, _) => s.writer_id,
-            ReaderSubmessage::NackFrag(s, _) => nackfrag_writer_id(s),
+            ReaderSubmessage::NackFrag(s, _) => s.writer_id,
         }
     }
-    #[verifier::external_body] pub fn receiver_entity_id(&self) -> (r: EntityId) ensures r == self.receiver_id() { unimplemented!() }
-    #[verifier::external_body] pub fn sender_entity_id(&self) -> EntityId { unimplemented!() }
+@@extract fn src/messages/submessages/submessage.rs "HasEntityIds for ReaderSubmessage::receiver_entity_id"
+@@ret r
+@@ensures gate.ids.receiver
+    r == self.receiver_id()
+@@end
+@@extract fn src/messages/submessages/submessage.rs "HasEntityIds for ReaderSubmessage::sender_entity_id"
+@@end
 }
 impl AckSubmessage {
     pub open spec fn writer_id_spec(&self) -> EntityId {
         match self {
             AckSubmessage::AckNack(a) => a.writer_id,
-            AckSubmessage::NackFrag(a) => nackfrag_writer_id(a),
+            AckSubmessage::NackFrag(a) => a.writer_id,
         }
     }
 }
@@ -232,6 +333,9 @@ pub assume_specification<T, E>[ Option::<Result<T, E>>::transpose ](o: Option<Re
         o is None ==> r == Ok::<Option<T>, E>(None),
         o matches Some(Ok(t)) ==> r == Ok::<Option<T>, E>(Some(t)),
         o matches Some(Err(e)) ==> r == Err::<Option<T>, E>(e);
+
+pub assume_specification<T>[ Option::<T>::or ](o: Option<T>, optb: Option<T>) -> (r: Option<T>)
+    ensures o is Some ==> r == o, o is None ==> r == optb;
 
 // std::collections::HashSet restricted to contains/insert (assumed contract, model = Set<T>)
 #[verifier::external_body]
